@@ -4,6 +4,7 @@ import (
 	"bytes"
 	"fmt"
 	"io"
+	"math"
 	"math/rand"
 	"net"
 	"net/http"
@@ -205,7 +206,7 @@ func (g *ScenarioGun) shootStep(step Request, sample *netsample.Sample, ammoName
 			return fmt.Errorf("%s postprocessor.Postprocess %w", op, err)
 		}
 		for k, v := range vars {
-			postprocessorVars[k] = v
+			postprocessorVars[k] = integralNumbers(v)
 		}
 		_, err = respBody.Seek(0, io.SeekStart)
 		if err != nil {
@@ -225,6 +226,31 @@ func (g *ScenarioGun) shootStep(step Request, sample *netsample.Sample, ammoName
 		time.Sleep(step.Sleep)
 	}
 	return nil
+}
+
+// integralNumbers turns integral float64 values into int64, recursively. encoding/json decodes every JSON
+// number into float64, which templates render in exponent form from 1e6 on (an id 1234567 captured by
+// var/jsonpath was sent as 1.234567e+06 by the next request).
+func integralNumbers(v any) any {
+	switch x := v.(type) {
+	case float64:
+		if x == math.Trunc(x) && math.Abs(x) < 1<<53 {
+			return int64(x)
+		}
+	case []any:
+		out := make([]any, len(x))
+		for i := range x {
+			out[i] = integralNumbers(x[i])
+		}
+		return out
+	case map[string]any:
+		out := make(map[string]any, len(x))
+		for k, e := range x {
+			out[k] = integralNumbers(e)
+		}
+		return out
+	}
+	return v
 }
 
 func (g *ScenarioGun) buildLogID(idBuilder *strings.Builder, tag string, ammoID uint64, rnd string) {
